@@ -419,6 +419,70 @@ def ev_single(case, rec):
     ev(case, rec)
 
 
+# --- the vectorised conversions on arrays of every shape ----------------------------------------------------------
+VEC_DEC = [2.0166666666666666, -0.5, 123.74875, -33.99999999999, 0.0, 359.9997222222222, -179.5, 45.25, -0.0002777777777777778, 90.0, -144.5, 10.0]
+VEC_HP = [2.01, -0.3, 123.44555, -33.5959999999, 0.0, 359.5959, -179.3, 45.15, -0.0001, 90.0, -144.3, 10.0]
+
+
+def gen_vec(tier, seed):
+    for fn in ('dec2hp_v', 'hp2dec_v'):
+        for shape in ('(12,)', '(6,2)', '(2,6)', '(3,2,2)', '(1,12)', '(12,1)', 'strided', 'readonly', 'fortran', '(1,)', 'empty'):
+            yield {'fn': fn, 'shape': shape}
+
+
+def ev_vec(case, rec):
+    fn = getattr(ga, case['fn'])
+    scalar = ga.dec2hp if case['fn'] == 'dec2hp_v' else ga.hp2dec
+    base = np.array(VEC_DEC if case['fn'] == 'dec2hp_v' else VEC_HP, dtype=float)
+    sh = case['shape']
+    if sh.startswith('('):
+        shp = eval(sh)
+        n = int(np.prod(shp))
+        arr = base[:n].reshape(shp).copy()
+    elif sh == 'strided':
+        big = np.zeros(24)
+        big[::2] = base
+        arr = big[::2]
+    elif sh == 'readonly':
+        arr = base.copy()
+        arr.setflags(write=False)
+    elif sh == 'fortran':
+        arr = np.asfortranarray(base.reshape(6, 2))
+    else:
+        arr = np.array([], dtype=float)
+    before = arr.copy()
+    st, out = rec.call(fn, arr)
+    rec.nontriv((case['fn'], sh))
+    if st != 'ok':
+        rec.fail('%s raised on a float array of shape %s' % (case['fn'], sh), site='angles:%s:shape' % case['fn'], observed=out, case=case)
+        return
+    if not np.array_equal(arr, before):
+        rec.fail('%s modified the array supplied by the caller' % case['fn'], site='angles:%s:argument' % case['fn'], observed=arr, case=case)
+    out = np.asarray(out)
+    rec.state((case['fn'], sh, out.tobytes().hex()[:48]))
+    if out.shape != before.shape:
+        rec.fail('%s changes the shape of the array' % case['fn'], site='angles:%s:shape' % case['fn'], observed=list(out.shape), expected=list(before.shape), case=case)
+        return
+    bad = []
+    for idx in np.ndindex(*before.shape):
+        exp = scalar(float(before[idx]))
+        got = float(out[idx])
+        # both are HP (or decimal) floats of the same angle: compare through their denotation in arc-seconds
+        if case['fn'] == 'dec2hp_v':
+            d1, d2 = den_exact(('hp', got))[0], den_exact(('hp', float(exp)))[0]
+        else:
+            d1, d2 = F(got) * 3600, F(float(exp)) * 3600
+        if abs(d1 - d2) > TOL:
+            bad.append((list(idx), float(before[idx]), got, float(exp)))
+    if bad:
+        rec.fail('%s on an array of shape %s does not convert every element like the scalar function (sign / value)' % (case['fn'], sh),
+                 site='angles:%s:elementwise' % case['fn'], observed=bad[:4], case=case, coords={'shape': sh, 'wrong': len(bad)})
+        rec.outcome('vec-bad')
+    else:
+        rec.outcome('vec-ok')
+    rec.sample(case)
+
+
 # --- invalid HP must be rejected --------------------------------------------------------------
 def gen_reject(tier, seed):
     for d in (0, 1, 59, 123, 359):
@@ -432,7 +496,10 @@ def ev_reject(case, rec):
             for frac in ('', '5', '999999999'):
                 for sg in (1.0, -1.0):
                     x = sg * float('%d.%02d%02d%s' % (d, m, s, frac))
-                    for name, fn in (('hp2dec', ga.hp2dec), ('HPAngle', ga.HPAngle)):
+                    txt = ('-' if sg < 0 else '') + '%d.%02d%02d%s' % (d, m, s, frac)
+                    for name, fn, arg in (('hp2dec', ga.hp2dec, x), ('HPAngle', ga.HPAngle, x), ('hp2dec', ga.hp2dec, txt), ('HPAngle', ga.HPAngle, txt),
+                                          ('hp2dec', ga.hp2dec, np.float64(x))):
+                        x = arg
                         rec.transitions += 1
                         rec.nontriv((d, m, s, frac, sg, name))
                         try:
@@ -498,6 +565,7 @@ from gpmc import interp as _ip
 SUBCHECKS = [
     Sub('graph', gen, ev_single, chunk=6, floor=1000, envs=4),
     Sub('reject', gen_reject, ev_reject_single, chunk=1, floor=100, envs=2),
+    Sub('vectors', gen_vec, ev_vec, chunk=1, floor=20),
     Sub('threads', _tg, _te, chunk=1, floor=3, poison=False, fresh=True, timeout=3600),
     Sub('callforms', *_cf.make('C08', 'angles'), chunk=1, floor=1, guard=True),
     Sub('interpreter', *_ip.make('C08', 'angles'), chunk=1, floor=5, poison=False),
